@@ -36,6 +36,9 @@ def directed_specs(ctx, n):
     out = []
     edge = [("SpiralOptimization", dict(decay_rate=1.0)), ("SpiralOptimization", dict(decay_rate=1.1)), ("SpiralOptimization", dict(decay_rate=1.0)),
             ("SpiralOptimization", dict(decay_rate=1.05)), ("SpiralOptimization", dict(decay_rate=1.0)), ("SpiralOptimization", dict(decay_rate=2.0)),
+            ("GeneticAlgorithmOptimizer", dict(mutation_rate=0.0, crossover_rate=1.0)), ("GeneticAlgorithmOptimizer", dict(mutation_rate=0.0)),
+            ("GeneticAlgorithmOptimizer", dict(mutation_rate=0.0, crossover_rate=1.0)), ("GeneticAlgorithmOptimizer", dict(mutation_rate=0.0)),
+            ("GeneticAlgorithmOptimizer", dict(mutation_rate=0.0, crossover_rate=1.0)), ("GeneticAlgorithmOptimizer", dict(mutation_rate=0.0)),
             ("ParticleSwarmOptimizer", dict(inertia=1.2, cognitive_weight=0.0, social_weight=3.0)),
             ("DifferentialEvolutionOptimizer", dict(mutation_rate=2.0)), ("EvolutionStrategyOptimizer", dict(mutation_rate=0.0, crossover_rate=1.0)),
             ("DownhillSimplexOptimizer", dict(alpha=2.5, gamma=4)), ("SpiralOptimization", dict(decay_rate=1.3)),
@@ -46,7 +49,7 @@ def directed_specs(ctx, n):
             # the unconstrained optimum lies outside a half-space, so the search is pulled onto the edge of the feasible region; no random
             # restarts, expansion / decay parameters at or above 1: a fallback that re-proposes the same candidate never leaves its loop
             name, cfg = edge[(i // 3) % len(edge)]
-            sz = rng.choice([25, 40])
+            sz = rng.choice([25, 40]) if name != "GeneticAlgorithmOptimizer" else 25
             space = {"x0": np.arange(sz), "x1": np.arange(sz)}
             c = sz + sz // 4 - 1
             allp = gen.all_positions(space)
@@ -60,7 +63,7 @@ def directed_specs(ctx, n):
                 cfg2["population"] = npop
             spec = dict(name=name, space=space, table=table, feasible=feas, constraint_desc=("halfspace-edge", c),
                         calls=[dict(n_iter=60, memory=False, verbosity=False)], seed=rng.randrange(10 ** 6),
-                        init=rng.choice([{"random": npop}, {"random": npop // 2, "vertices": npop - npop // 2}]), cfg=cfg2,
+                        init=(rng.choice([{"random": npop}, {"random": npop // 2, "vertices": npop - npop // 2}]) if name != "GeneticAlgorithmOptimizer" else {"random": npop}), cfg=cfg2,
                         meta=[("int", "asc", sz), ("int", "asc", sz)])
         elif i % 3 == 0:
             nd = rng.choice([1, 2])
@@ -108,7 +111,7 @@ def run(ctx):
                         "distinct by (optimizer, seed, constraint)" % BOUND)
     n_fast, n_slow = (72, 4) if ctx.quick else (540, 40)
     specs = sweep.sweep_specs(ctx, "c08", n_fast, n_slow, constraint=1.0, ckinds=["parity", "band", "mask", "halfspace", "parity"]) \
-        + c02.special_specs(ctx, 16 if ctx.quick else 120) + directed_specs(ctx, 36 if ctx.quick else 150) \
+        + c02.special_specs(ctx, 16 if ctx.quick else 120) + directed_specs(ctx, 54 if ctx.quick else 200) \
         + sweep.extreme_specs(ctx, "c08", constraint=1.0, rounds=(1 if ctx.quick else 4))
     for spec in specs:
         if spec.get("feasible") is None:
